@@ -44,7 +44,7 @@ WRITE_CH = ["string", "file", "file", "svgz", "svgz", "pathlike", "fobj-text", "
 READ_CH = ["name", "stream"]
 TRS = ["", "", "translate(10,20)", "scale(2)", "scale(0.5,3)", "rotate(30)", "scale(-1,1)", "matrix(1,0.5,-0.3,2,5,6)", "rotate(45) scale(2,0.5)", "scale(1,-1) translate(0,-50)", "scale(0.01)", "scale(100)"]
 # paint is always stated in built trees: an unset fill/stroke (None) has no defined rendering to preserve
-FILLS = ["red", "#123456", "none", "blue", "#00ff0080", "rgb(1,2,3)", "black"]
+FILLS = ["red", "#123456", "none", "blue", "#00ff0080", "rgb(1,2,3)", "black", "#12345600", "rgba(9,8,7,0)", "#abcdefff"]
 
 
 class PathLike:
